@@ -201,7 +201,10 @@ func zzTry(pBound, bodyBase, bodyN int, handlersMayFail bool, endLabel string) {
 		lastBody = n
 	}
 	if bodyKind == 4 {
-		nd.Assert(log.count("begin:nested2") == 1 && log.count("end:nested2") == 1, "C16/second-nested-task-runs")
+		// the second nested task runs to its end - unless it was submitted
+		// after its failing sibling had already failed the body's scope (a
+		// scope that is done refuses new tasks): then it never starts
+		nd.Assert(log.count("begin:nested2") <= 1 && log.count("end:nested2") == log.count("begin:nested2"), "C16/second-nested-task-runs")
 	}
 	if bodyKind >= 2 {
 		nd.Assert(log.count("begin:nested") == 1, "C16/nested-task-runs")
